@@ -851,7 +851,7 @@ class Process(StateMachine, persistence.Savable, metaclass=ProcessStateMachineMe
     def on_playing(self) -> None:
         """The process was played."""
         # Done being paused
-        if self._paused is not None:
+        if self._paused is not None and not self._paused.done():
             self._paused.set_result(True)
         self._paused = None
 
@@ -917,6 +917,9 @@ class Process(StateMachine, persistence.Savable, metaclass=ProcessStateMachineMe
     def on_terminated(self) -> None:
         """Call when a terminal state is reached."""
         super().on_terminated()
+        if self._paused is not None and not self._paused.done():
+            # Release the stepping coroutine if it is blocked on the pause
+            self._paused.set_result(True)
         self.close()
 
     @super_check
